@@ -161,7 +161,9 @@ func C03(x *Ctx, r *core.Result) {
 			r.Fail(a, n+":peek", w.Pos(fn.Pos()), "the token type is not obtained from NextTokenType")
 			continue
 		}
-		tab := x.dispatchTable(fn, tkn)
+		// the switch may live in an unexported helper that is handed the peeked token type
+		site, stkn, via := x.dispatchSite(fn, tkn)
+		tab := x.dispatchTable(site, stkn)
 		ok := true
 		if !sameSet(tab["ObjectStartType"], "ReadObject", "borrowValueReader", "returnValueReader") {
 			r.Fail(a, n+":object", w.Pos(fn.Pos()), fmt.Sprintf("object start is handled by %v, must be borrow, ReadObject on the child, return", tab["ObjectStartType"]))
@@ -182,7 +184,7 @@ func C03(x *Ctx, r *core.Result) {
 			}
 		}
 		// readSimpleValue receives the same token type and the re-sliced data; child readers read the same re-sliced data
-		if msg := x.dispatchArgs(fn, tkn); msg != "" {
+		if msg := x.dispatchArgs(site, stkn, via); msg != "" {
 			r.Fail(a, n+":args", w.Pos(fn.Pos()), msg)
 			ok = false
 		}
@@ -252,7 +254,7 @@ func (x *Ctx) returnsStringCopy(fn *ssa.Function) bool {
 
 // dispatchArgs: the child readers and readSimpleValue are given the slice data[p:] that starts at the token, and
 // readSimpleValue receives the peeked token type itself.
-func (x *Ctx) dispatchArgs(fn *ssa.Function, tkn ssa.Value) string {
+func (x *Ctx) dispatchArgs(fn *ssa.Function, tkn ssa.Value, via *ssa.Call) string {
 	var sl ssa.Value
 	for _, b := range fn.Blocks {
 		for _, ins := range b.Instrs {
@@ -270,9 +272,6 @@ func (x *Ctx) dispatchArgs(fn *ssa.Function, tkn ssa.Value) string {
 					return "reader called without data"
 				}
 				d := c.Call.Args[1]
-				if _, isSlice := d.(*ssa.Slice); !isSlice {
-					return callee.Name() + " is not given the re-sliced data starting at the token"
-				}
 				if sl == nil {
 					sl = d
 				} else if sl != d {
@@ -284,21 +283,82 @@ func (x *Ctx) dispatchArgs(fn *ssa.Function, tkn ssa.Value) string {
 			}
 		}
 	}
-	// the slice must start at (NextTokenType's offset - 1)
-	if s, ok := sl.(*ssa.Slice); ok {
-		sub, ok := s.Low.(*ssa.BinOp)
-		if !ok || sub.Op != token.SUB {
-			return "the data is not re-sliced at (token offset - 1)"
+	// when the switch lives in a helper, the data it reads must be the parameter the caller fills with the re-sliced data
+	if via != nil {
+		par, ok := sl.(*ssa.Parameter)
+		if !ok {
+			return "the helper does not read the data it was given unchanged"
 		}
-		if c, ok := constBig(sub.Y); !ok || c.Int64() != 1 {
-			return "the data is not re-sliced at (token offset - 1)"
+		sl = nil
+		for i, fp := range fn.Params {
+			if fp == par && i < len(via.Call.Args) {
+				sl = via.Call.Args[i]
+			}
 		}
-		ex, ok := sub.X.(*ssa.Extract)
-		if !ok || ex.Index != 1 {
-			return "the data is not re-sliced at (token offset - 1)"
+		if sl == nil {
+			return "the helper's data parameter is not bound at the call"
 		}
 	}
+	// the slice must start at (NextTokenType's offset - 1)
+	s, ok := sl.(*ssa.Slice)
+	if !ok {
+		return "the readers are not given the re-sliced data starting at the token"
+	}
+	if s.High != nil || s.Max != nil {
+		return "the data handed to the readers is cut short"
+	}
+	sub, ok := s.Low.(*ssa.BinOp)
+	if !ok || sub.Op != token.SUB {
+		return "the data is not re-sliced at (token offset - 1)"
+	}
+	if c, ok := constBig(sub.Y); !ok || c.Int64() != 1 {
+		return "the data is not re-sliced at (token offset - 1)"
+	}
+	ex, ok := sub.X.(*ssa.Extract)
+	if !ok || ex.Index != 1 {
+		return "the data is not re-sliced at (token offset - 1)"
+	}
 	return ""
+}
+
+// dispatchSite: the function that holds the token-type switch for fn. That is fn itself when it compares the peeked
+// token type with constants; otherwise the single unexported library function that fn hands the token type to and
+// that does compare it (a shared "read child" helper).
+func (x *Ctx) dispatchSite(fn *ssa.Function, tkn ssa.Value) (*ssa.Function, ssa.Value, *ssa.Call) {
+	if x.testsToken(fn, tkn) {
+		return fn, tkn, nil
+	}
+	for _, b := range fn.Blocks {
+		for _, ins := range b.Instrs {
+			c, ok := ins.(*ssa.Call)
+			if !ok {
+				continue
+			}
+			callee := c.Call.StaticCallee()
+			if callee == nil || !x.W.InLib(callee) || callee.Object() == nil || callee.Object().Exported() || len(callee.Blocks) == 0 {
+				continue
+			}
+			for i, a := range c.Call.Args {
+				if a == tkn && i < len(callee.Params) && x.testsToken(callee, callee.Params[i]) {
+					if _, has := x.dispatchTable(callee, callee.Params[i])["ObjectStartType"]; has {
+						return callee, callee.Params[i], c
+					}
+				}
+			}
+		}
+	}
+	return fn, tkn, nil
+}
+
+func (x *Ctx) testsToken(fn *ssa.Function, tkn ssa.Value) bool {
+	for _, b := range fn.Blocks {
+		if iff, ok := b.Instrs[len(b.Instrs)-1].(*ssa.If); ok {
+			if be, ok := iff.Cond.(*ssa.BinOp); ok && be.Op == token.EQL && be.X == tkn && x.tokenConstName(be.Y) != "" {
+				return true
+			}
+		}
+	}
+	return false
 }
 
 // storeRules: R03b.
@@ -420,7 +480,7 @@ func (x *Ctx) storeRules(r *core.Result, rs *core.RuleStat) {
 			// every nil-error return is preceded by the store: the store's block dominates the final return
 			for _, b := range fn.Blocks {
 				if ret, isRet := b.Instrs[len(b.Instrs)-1].(*ssa.Return); isRet && len(ret.Results) == 2 && !x.knownNonNilError(ret.Results[1]) {
-					if x.isErrExtractTested(ret.Results[1], b) {
+					if x.isErrExtractTested(ret.Results[1], b) || x.correlatedNonNil(ret.Results[1], b) {
 						continue // return of an error known non-nil on this path
 					}
 					if !mu.Block().Dominates(b) {
@@ -501,6 +561,28 @@ func (x *Ctx) isDecodedValue(v ssa.Value, seen map[ssa.Value]bool) bool {
 				switch callee.Name() {
 				case "ReadObject", "ReadArray", "readSimpleValue":
 					return true
+				}
+				// a private helper that hands on a decoded value: each of its returns carries a decoded value
+				// or a known non-nil error
+				if x.W.InLib(callee) && callee.Object() != nil && !callee.Object().Exported() && len(callee.Blocks) > 0 {
+					n := 0
+					for _, b := range callee.Blocks {
+						ret, isRet := b.Instrs[len(b.Instrs)-1].(*ssa.Return)
+						if !isRet || len(ret.Results) < 2 {
+							continue
+						}
+						for _, rc := range splitReturn(ret) {
+							n++
+							last := rc.vals[len(rc.vals)-1]
+							if isErrT(last.Type()) && x.knownNonNilError(last) {
+								continue
+							}
+							if !x.isDecodedValue(rc.vals[0], seen) {
+								return false
+							}
+						}
+					}
+					return n > 0
 				}
 			}
 		}
@@ -619,7 +701,10 @@ func (x *Ctx) unescapeKeyShape(fn *ssa.Function) string {
 				}
 			}
 			if !guard {
-				return "the unescape step is not guarded by fieldname[i] == '\\\\' for the same i"
+				guard = indexByteGuard(b, idx, fieldname)
+			}
+			if !guard {
+				return "the unescape step is not guarded by fieldname[i] == '\\\\' for the same i (or i = bytes.IndexByte(fieldname, '\\\\') with i >= 0)"
 			}
 			return ""
 		}
@@ -715,32 +800,46 @@ func (x *Ctx) nullGuard(r *core.Result, rs *core.RuleStat, name string) {
 // depthExactness: R03d — every recursive call guarded with the exact limit; top-level entry sets depth 1.
 func (x *Ctx) depthExactness(r *core.Result, rs *core.RuleStat) {
 	w := x.W
-	n := 0
+	// Recursion sites: the ReadObject / ReadArray calls made on behalf of each handler method — in the handler itself
+	// or in the unexported helpers it calls (a shared "read child" helper). One instance per (handler, reader) pair.
 	for _, name := range []string{"ValueReader.HandleArrayValue", "ValueReader.HandleObjectValue"} {
 		fn := x.Func(name)
 		if fn == nil {
 			r.Undecided(rs, name, "-", "function not found")
 			continue
 		}
-		for _, b := range fn.Blocks {
-			for _, ins := range b.Instrs {
-				c, ok := ins.(*ssa.Call)
-				if !ok {
-					continue
+		found := map[string][]*ssa.Call{}
+		for _, g := range x.helperClosure(fn) {
+			for _, b := range g.Blocks {
+				for _, ins := range b.Instrs {
+					c, ok := ins.(*ssa.Call)
+					if !ok {
+						continue
+					}
+					callee := c.Call.StaticCallee()
+					if callee == nil || !w.InLib(callee) || callee.Signature.Recv() == nil || (callee.Name() != "ReadObject" && callee.Name() != "ReadArray") {
+						continue
+					}
+					found[callee.Name()] = append(found[callee.Name()], c)
 				}
-				callee := c.Call.StaticCallee()
-				if callee == nil || (callee.Name() != "ReadObject" && callee.Name() != "ReadArray") {
-					continue
+			}
+		}
+		for _, kind := range []string{"ReadObject", "ReadArray"} {
+			if len(found[kind]) == 0 {
+				continue // R03a reports a handler that does not recurse; nothing to guard here
+			}
+			rs.Instances++
+			key := fmt.Sprintf("%s:%s", fnKey(fn), kind)
+			bad := false
+			for _, c := range found[kind] {
+				if msg := x.depthGuardBefore(c.Parent(), c); msg != "" {
+					r.Fail(rs, key, w.Pos(c.Pos()), "recursive call in "+fnKey(c.Parent())+": "+msg)
+					bad = true
 				}
-				n++
-				rs.Instances++
-				key := fmt.Sprintf("%s:%s#%d", fnKey(fn), callee.Name(), n)
-				if msg := x.depthGuardBefore(fn, c); msg != "" {
-					r.Fail(rs, key, w.Pos(c.Pos()), "recursive call: "+msg)
-				} else {
-					rs.OK(1)
-					rs.Sample(key + ": guarded by child.depth > 10000, child.depth = parent.depth + 1")
-				}
+			}
+			if !bad {
+				rs.OK(1)
+				rs.Sample(key + ": guarded by child.depth > 10000, child.depth = parent.depth + 1")
 			}
 		}
 	}
@@ -902,4 +1001,129 @@ func (x *Ctx) freshReaderWrapper(r *core.Result, rs *core.RuleStat, name string)
 		rs.OK(1)
 		rs.Sample(name + ": fresh ValueReader, method of the same name, results unchanged")
 	}
+}
+
+// indexByteGuard accepts the other common way of locating the first
+// backslash: idx is bytes.IndexByte(fieldname, '\\') and block b is only
+// reached when idx was found (idx >= 0, idx > -1 or idx != -1).
+func indexByteGuard(b *ssa.BasicBlock, idx ssa.Value, fieldname ssa.Value) bool {
+	ic, ok := idx.(*ssa.Call)
+	if !ok {
+		return false
+	}
+	callee := ic.Call.StaticCallee()
+	if callee == nil || callee.Pkg == nil || callee.Pkg.Pkg.Path() != "bytes" || callee.Name() != "IndexByte" {
+		return false
+	}
+	if len(ic.Call.Args) != 2 || ic.Call.Args[0] != fieldname {
+		return false
+	}
+	if k, ok := constBig(ic.Call.Args[1]); !ok || k.Int64() != '\\' {
+		return false
+	}
+	for d := b; d != nil; d = d.Idom() {
+		dom := d.Idom()
+		if dom == nil {
+			break
+		}
+		iff, ok := dom.Instrs[len(dom.Instrs)-1].(*ssa.If)
+		if !ok {
+			continue
+		}
+		be, ok := iff.Cond.(*ssa.BinOp)
+		if !ok || be.X != idx {
+			continue
+		}
+		kk, ok := constBig(be.Y)
+		if !ok {
+			continue
+		}
+		found := (be.Op == token.GEQ && kk.Int64() == 0) || (be.Op == token.GTR && kk.Int64() == -1) || (be.Op == token.NEQ && kk.Int64() == -1)
+		if found && (dom.Succs[0] == d || dom.Succs[0].Dominates(d)) && len(dom.Succs[0].Preds) == 1 {
+			return true
+		}
+	}
+	return false
+}
+
+
+// helperClosure: fn and the unexported library functions it (transitively) calls statically — the unit a shape rule
+// about fn has to look at so that moving part of fn into a private helper does not hide the construct.
+func (x *Ctx) helperClosure(fn *ssa.Function) []*ssa.Function {
+	seen := map[*ssa.Function]bool{fn: true}
+	out := []*ssa.Function{fn}
+	for i := 0; i < len(out); i++ {
+		for _, b := range out[i].Blocks {
+			for _, ins := range b.Instrs {
+				c, ok := ins.(*ssa.Call)
+				if !ok {
+					continue
+				}
+				callee := c.Call.StaticCallee()
+				if callee == nil || seen[callee] || !x.W.InLib(callee) || len(callee.Blocks) == 0 {
+					continue
+				}
+				if callee.Object() != nil && callee.Object().Exported() {
+					continue
+				}
+				if x.Machine(callee.Name()) != nil {
+					continue
+				}
+				seen[callee] = true
+				out = append(out, callee)
+			}
+		}
+	}
+	return out
+}
+
+
+// correlatedNonNil: v is the error result of a call to a library helper and block b is reached only when a boolean
+// result of the same call was true, where the helper returns that boolean as true only together with a known
+// non-nil error (`val, n, tooDeep, err := h.readChild(…); if tooDeep { return p, err }`).
+func (x *Ctx) correlatedNonNil(v ssa.Value, b *ssa.BasicBlock) bool {
+	ex, ok := v.(*ssa.Extract)
+	if !ok || !isErrT(ex.Type()) {
+		return false
+	}
+	call, ok := ex.Tuple.(*ssa.Call)
+	if !ok {
+		return false
+	}
+	h := call.Call.StaticCallee()
+	if h == nil || !x.W.InLib(h) || len(h.Blocks) == 0 {
+		return false
+	}
+	for _, ref := range *call.Referrers() {
+		flag, ok := ref.(*ssa.Extract)
+		if !ok || flag == ex {
+			continue
+		}
+		if bt, isB := flag.Type().Underlying().(*types.Basic); !isB || bt.Info()&types.IsBoolean == 0 {
+			continue
+		}
+		if !x.dominatedByBool(b, flag, true) {
+			continue
+		}
+		good, n := true, 0
+		for _, hb := range h.Blocks {
+			ret, isRet := hb.Instrs[len(hb.Instrs)-1].(*ssa.Return)
+			if !isRet {
+				continue
+			}
+			for _, rc := range splitReturn(ret) {
+				n++
+				if k, isK := rc.vals[flag.Index].(*ssa.Const); isK && !constant.BoolVal(k.Value) {
+					continue
+				}
+				if !x.knownNonNilError(rc.vals[ex.Index]) {
+					good = false
+				}
+			}
+		}
+		if good && n > 0 {
+			return true
+		}
+	}
+	return false
 }
